@@ -189,7 +189,10 @@ class ImageInterpolatingOps:
                     if not ok:
                         continue
                 want = E.add(b, *[E.mul(a[d], w[d]) for d in range(2)])
-                K.ensure_eq(f"ramp[{k}]{list(idx)}", data[(k, 0) + idx], want, text=Q4R)
+                if name in ("sample", "resample"):  # these paths round the (concrete) sample coordinates to 12 decimals
+                    K.ensure_close(f"ramp[{k}]{list(idx)}", data[(k, 0) + idx], want, text=Q4R)
+                else:
+                    K.ensure_eq(f"ramp[{k}]{list(idx)}", data[(k, 0) + idx], want, text=Q4R)
 
 
 @register
@@ -233,13 +236,16 @@ class ImageConv:
 
 
 # ---------------------------------------------------------------------------------------------------------- C05
-def rational_grid(K, name, D, size, ac):
-    """a concrete oriented anisotropic grid with rational attributes (seeded), returned with its spec"""
+def rational_grid(K, name, D, size, ac, near=None, fine=False):
+    """a concrete oriented anisotropic grid with rational attributes (seeded), returned with its spec;
+    ``near``: centre close to this point (so that the two grids of a pair overlap)"""
     from deepali.core.grid import Grid
 
     r = K.rng
-    s = [Fraction(r.randint(3, 12), 8) for _ in range(D)]
+    s = [Fraction(r.randint(3, 6) if fine else r.randint(6, 12), 8) for _ in range(D)]
     c = [Fraction(r.randint(-8, 8), 4) for _ in range(D)]
+    if near is not None:
+        c = [near[d] + Fraction(r.randint(-2, 2), 8) for d in range(D)]
     if D == 2:
         t = Fraction(r.randint(-6, 6), 8)
         R = SG.rotation2(E.const(t))
@@ -281,7 +287,7 @@ class SampleOnOrientedGrid:
         ssz = (5, 4) if D == 2 else (3, 4, 3)
         tsz = (4, 6) if D == 2 else (3, 3, 2)
         src, ss = rational_grid(K, "s", D, ssz, case["source_ac"])
-        tgt, ts = rational_grid(K, "t", D, tsz, case["target_ac"])
+        tgt, ts = rational_grid(K, "t", D, tsz, case["target_ac"], near=[E.evaluate(v, {}) for v in ss.c], fine=True)
         # move the target near the source centre and make it small enough to overlap
         shape = ssz[::-1]
         ev = K.reals("v", (1, 1) + shape)
@@ -330,6 +336,7 @@ class SampleOnOrientedGrid:
             else:
                 K.ensure_eq(f"interp{list(idx)}", got, want, text=Q5)
         K.note(f"{ninside} target voxels inside the source field of view")
+        K.ensure("overlap", E.bconst(ninside >= 2), text="the seeded geometry pair overlaps (vacuity guard)", kind="helper")
 
 
 @register
@@ -356,7 +363,7 @@ class SampleIdentityAndCoords:
         coords = h.coords(align_corners=g.align_corners()).unsqueeze(0)
         on_coords = K.call(batch.sample, coords)
         if K.ensure_returns(on_grid) and K.ensure_returns(on_coords):
-            K.ensure_eq("coords==grid", on_coords, K.val(on_grid.tensor()), text="C05: sampling at explicit normalised coordinates agrees with sampling on the grid those coordinates came from")
+            K.ensure_close("coords==grid", on_coords, K.val(on_grid.tensor()), text="C05: sampling at explicit normalised coordinates agrees with sampling on the grid those coordinates came from")
 
 
 @register
@@ -384,7 +391,7 @@ class SampleVsSimpleITK:
         ssz = tuple(K.rng.randint(6, 14) for _ in range(D))
         tsz = tuple(K.rng.randint(4, 10) for _ in range(D))
         src, ss = rational_grid(K, "s", D, ssz, case["align_corners"])
-        tgt, ts = rational_grid(K, "t", D, tsz, not case["align_corners"])
+        tgt, ts = rational_grid(K, "t", D, tsz, not case["align_corners"], near=[E.evaluate(v, {}) for v in ss.c], fine=True)
         gen = torch.Generator().manual_seed(K.rng.randint(0, 1 << 30))
         K.env["seed"] = gen.initial_seed()
         data = torch.rand((1,) + ssz[::-1], generator=gen)
@@ -396,12 +403,23 @@ class SampleVsSimpleITK:
         interp = sitk.sitkLinear if case["mode"] == "linear" else sitk.sitkNearestNeighbor
         ref = sitk.Resample(im.sitk(), ref_grid, sitk.Transform(), interp, -7.0)
         refa = torch.from_numpy(sitk.GetArrayFromImage(ref)).unsqueeze(0)
-        inside = (refa != -7.0) & (out.tensor() != -7.0)
+        # target samples whose source position lies inside the hull of the source samples (computed from the headers by the spec)
+        A, t = SG.point_map(ts, "grid", ss, "grid")
+        inside = torch.zeros((1,) + tsz[::-1], dtype=torch.bool)
+        for idx in np.ndindex(*tsz[::-1]):
+            j = [Fraction(idx[D - 1 - d]) for d in range(D)]
+            pos = [E.evaluate(E.add(t[d], *[E.mul(A[d, e], j[e]) for e in range(D)]), {}) for d in range(D)]
+            ok = all(Fraction(1, 100) <= p <= ssz[d] - 1 - Fraction(1, 100) for d, p in enumerate(pos))
+            if case["mode"] == "nearest":
+                ok = ok and not any(abs((p % 1) - Fraction(1, 2)) < Fraction(1, 20) for p in pos)
+            inside[(0,) + idx] = ok
+        K.env["inside"] = int(inside.sum())
+        K.ensure("overlap", E.bconst(int(inside.sum()) >= 2), text="the seeded geometry pair overlaps (vacuity guard)", kind="helper")
         if case["mode"] == "nearest":
             # ties at cell borders are excluded: compare only where both agree on being clearly inside a cell
             diff = (out.tensor() - refa).abs()
             frac = float(((diff < 1e-4) & inside).sum()) / max(1.0, float(inside.sum()))
-            K.ensure("nearest-agreement", E.bconst(frac > 0.97), text=Q5 + f" [nearest neighbour, fraction of agreeing voxels {frac:.3f}]")
+            K.ensure("nearest-agreement", E.bconst(frac > 0.999 or int(inside.sum()) == 0), text=Q5 + f" [nearest neighbour, fraction of agreeing voxels {frac:.3f}]")
         else:
             err = float(((out.tensor() - refa).abs() * inside).max())
             K.env["max_err"] = err
